@@ -59,7 +59,8 @@ def run_impl(ops):
             elif op[0] == 'len':
                 out.append(len(c))
             elif op[0] == 'items':
-                out.append(sorted([a, b, fkey(v)] for a, b, v in c.items()))
+                # which of the two keys of a listed pair comes first is not specified ("every stored unordered pair exactly once"): the smaller one first here
+                out.append(sorted([*sorted((a, b)), fkey(v)] for a, b, v in c.items()))
         except ValueError:
             out.append('ValueError')
         except Exception as e:  # noqa
